@@ -112,13 +112,12 @@ PROPS["C03"] = {
 
 PROPS["C20"] = {
     "level": "other",
-    "technique": "Verus contract on the extracted in-memory get_level_candidates (only chunks of the requested level, none selected twice, groups of at least two) and local complete_compaction (level = max source level + 1, computed before the sources are deleted); Verus contracts on the extracted candidate selection (object-store get_level_candidates: selected paths are exactly the chunks of the requested level, each in one group only) and on the level arithmetic of complete_compaction (target strictly above every source)",
+    "technique": "Verus contracts on the extracted in-memory get_l0_candidates (only L0 chunks, none selected twice, groups of at least min_count) and get_level_candidates (only chunks of the requested level, none selected twice, groups of at least two) and local complete_compaction (level = max source level + 1, computed before the sources are deleted); Verus contracts on the extracted candidate selection (object-store get_level_candidates: selected paths are exactly the chunks of the requested level, each in one group only) and on the level arithmetic of complete_compaction (target strictly above every source)",
     "verus": ["c03_compaction.rs.in", "c20_local.rs.in"],
     "explanation": "Per-call obligations: no chunk is selected into two groups of one call, only chunks of the level being compacted are grouped, the merged chunk's level is strictly above every source level and no other chunk's level changes. Convergence over repeated cycles is argued from these contracts (each successful merge of >= 2 live sources removes at least one catalog entry and never lowers a level; levels are bounded by max_levels + 1) but the whole-history induction is not mechanised.",
     "assumptions": [
         "HashMap::into_iter().filter().map().collect() yields exactly the entries satisfying the (lifted, verified) predicate, each key once; sort_by_key is a permutation; std::mem::take returns the old vector and leaves an empty one",
         "chunk sizes and target sizes are below 2^62 (the running size sum does not overflow)",
-        "the in-memory get_l0_candidates is not under contract (the object-store one is)",
     ],
 }
 
